@@ -128,6 +128,20 @@ C04Family == { Scn("C04", FE(t, <<>>, tf), <<L("", "T4", "")>>, WithFailing(cs, 
                  tf \in BOOLEAN, cs \in ChainShapes, S \in SUBSET (1..3) }
 
 -----------------------------------------------------------------------------
+\* C16: option processing.  Exact-key targets; every arrangement of the supplied values in which keys
+\* repeat (the last occurrence must win), every default/call split, nil values, a nil option.
+\* (name casing is varied by the harness at the API and in the struct tags)
+C16Params == {L("a", "T1", ""), L("", "T2", ""), L("b", "T4", "s"), L("", "T3", "s")}
+C16Targets == {<<p>> : p \in C16Params} \cup {<<p, q>> : p \in {L("a", "T1", ""), L("b", "T4", "s")}, q \in {L("", "T2", ""), L("", "T3", "s")}}
+\* arrangements of a multiset given as a sequence (positions are distinct, so every order appears)
+Arrangements(ms) == {[i \in DOMAIN ms |-> ms[p[i]]] : p \in PermSeqs(DOMAIN ms)}
+C16Multisets(t) == IF Len(t) = 1 THEN {<<t[1]>>, <<t[1], t[1]>>, <<t[1], t[1], t[1]>>, <<t[1], t[1], L("c", "T5", "")>>}
+                   ELSE {<<t[1], t[2]>>, <<t[1], t[1], t[2]>>, <<t[1], t[2], t[2]>>} \cup (IF Size = 1 THEN {} ELSE {<<t[1], t[1], t[2], t[2]>>})
+C16Family == UNION { { [Scn("C16", F(t, <<>>), ins, <<>>) EXCEPT !.ndef = nd, !.bad = bad] :
+                         ins \in UNION {Arrangements(ms) : ms \in C16Multisets(t)},
+                         nd \in 0..3, bad \in {"", "nilvalue", "nilarg"} } : t \in C16Targets }
+
+-----------------------------------------------------------------------------
 FamilyScenarios == CASE Family = "C03" -> C03Family
                      [] Family = "C07" -> C07Family
                      [] Family = "C05" -> C05Family \cup CycleFamily
@@ -137,6 +151,7 @@ FamilyScenarios == CASE Family = "C03" -> C03Family
                      [] Family = "C04" -> C04Family
                      [] Family = "C13" -> CycleFamily
                      [] Family = "C01" -> C03Family \cup CycleFamily
+                     [] Family = "C16" -> {x \in C16Family : x.ndef <= Len(x.inputs)}
                      [] OTHER -> {}
 
 \* number the family (sids above 1000000 so that they cannot clash with the random scenarios)
@@ -147,4 +162,5 @@ EmitScn == (outcome.kind = "build" /\ scn.sid >= 1000000) => PrintT(<<"SCN", ToJ
 
 \* C07 as a design-level invariant (the contract formula lives in Contract.tla)
 M_C07 == CI!C07
+M_C16 == CI!C16
 =============================================================================
